@@ -49,7 +49,7 @@ type Doc struct {
 
 var keywordsAsNames = []string{"model", "schema", "type", "relation", "module", "extend"}
 var plainNames = []string{"Viewer", "VIEWER", "A", "B1", "user", "group", "doc", "folder", "org", "viewer", "editor", "owner", "member", "parent", "admin", "can_view", "a", "b1", "_x", "r", "b", "x-y", "a-", "with1", "fromage", "android", "order", "define1", "relations2", "types", "models", "typed"}
-var extNames = []string{"a.b", "a/b", "a.b/c", "_.a_/_b._", "x1.y2", "app/doc.viewer", "a-b.c"}
+var extNames = []string{"a.b", "a/b", "a.b/c", "_.a_/_b._", "x1.y2", "app/doc.viewer", "a-b.c", "acme/user-group", "can.view-all", "x_1-y/z.w"}
 
 type DSLGen struct {
 	R *rand.Rand
